@@ -177,7 +177,8 @@ def run_list_optimal(p):
     vecs = {t.id: [sign[i] * val(t, i) for i in ids] for t in cons}
     exp = [t.id for t in cons if not any(dom(vecs[u.id], vecs[t.id]) for u in cons)]
     got = r.get('value')
-    nan_reported = [i for i in (got or []) if i in vecs and any(math.isnan(x) for x in vecs[i])]
+    by_id = {t.id: t for t in stored}
+    nan_reported = [i for i in (got or []) if i in by_id and any(val(by_id[i], m) is not None and math.isnan(val(by_id[i], m)) for m in ids)]
     not_considered = [i for i in (got or []) if i not in vecs]
     ob = p.get('obligation', '')
     if 'no_nan_objective' in ob:
